@@ -30,9 +30,10 @@
 (* observer edges of a node on the same live object and goes on.  With        *)
 (* Interleave = TRUE observers are ordinary steps (every sequence of          *)
 (* <= MaxSteps operations of both sorts).  ObserveAt restricts the depths at  *)
-(* which observers are offered: every (contents, last mutator) pair of a      *)
-(* shorter history other than the constructor's recurs at depth MaxSteps, so  *)
-(* {0, 1, MaxSteps} loses no (state, last mutator, observer) combination.     *)
+(* which observers are offered.  For sets {0, 1, MaxSteps} loses no (contents,*)
+(* last mutator, observer) combination: a shorter history can be padded with  *)
+(* clear() in front and its new(T) replaced by update(T), so the same pair    *)
+(* recurs at depth MaxSteps; for maps this is a coverage heuristic.           *)
 EXTENDS Integers, Sequences, FiniteSets, TLC
 
 CONSTANTS Kind,        \* "set" or "map"
@@ -40,7 +41,8 @@ CONSTANTS Kind,        \* "set" or "map"
           Operands,    \* subsets of 1..N offered as the other operand of binary set operations
           Vals,        \* map values
           MaxNew,      \* map: longest pair list given to the constructor
-          FullMapOps,  \* map: TRUE = compare with every well-formed map, FALSE = with variants of the current one
+          FullMapOps,  \* map: TRUE = compare with every map of <= 2 entries and with variants of the current one,
+                       \*      FALSE = with the variants only
           MaxSteps,    \* bound on the number of mutating operations (all operations when Interleave)
           Interleave,  \* TRUE: observers are ordinary steps; FALSE: an observer ends the behaviour
           ObserveAt    \* Interleave = FALSE: observers are offered in states with steps \in ObserveAt
@@ -106,13 +108,13 @@ Swap12(m) == [m EXCEPT ![1] = m[2], ![2] = m[1]]
 AsFun(m) == [k \in KeysOf(m) |-> m[Index(m, k)][2]]               \* the mapping, order forgotten
 
 PairSeqs(n) == UNION {[1..l -> Pairs] : l \in 0..n}
-AllMaps == {m \in PairSeqs(N) : DistinctKeys(m)}
+SmallMaps == {m \in PairSeqs(2) : DistinctKeys(m)}          \* constant
 Variants(m) ==
     {m, Reverse(m), <<>>}
     \cup (IF m # <<>> THEN {Front(m), Tail(m), FlipVal(m, 1), FlipVal(m, Len(m))} ELSE {})
     \cup (IF Len(m) >= 2 THEN {Swap12(m)} ELSE {})
     \cup {Append(m, <<k, CHOOSE v \in Vals : TRUE>>) : k \in Keys \ KeysOf(m)}
-MapOperands(m) == IF FullMapOps THEN AllMaps ELSE Variants(m)
+MapOperands(m) == IF FullMapOps THEN SmallMaps \cup Variants(m) ELSE Variants(m)
 NewArgs == IF Kind = "map" THEN PairSeqs(MaxNew) ELSE {}     \* pair lists given to the constructor (constant)
 
 ----------------------------------------------------------------------------
